@@ -457,7 +457,7 @@ def shard_exprs(prop: str, tier: str, seed: int, n: int) -> dict[str, Any]:
 
     t2()
     rnd = random.Random(seed)
-    depths = [10, 100, 400, 900, 1500, 3000, 5000]
+    depths = [10, 100, 400, 900, 1500, 3000, 5000, 8000, 12000, 20000, 60000]
     forms = [lambda k: "not " * k + "x", lambda k: "-" * k + "n", lambda k: "x" + "[0]" * k, lambda k: "x" + ".a" * k,
              lambda k: "(" * k + "x" + ")" * k, lambda k: "[" * k + "]" * k, lambda k: " and ".join(["x"] * k),
              lambda k: " < ".join(["n"] * k), lambda k: "x if y else " * k + "n"]
